@@ -104,6 +104,7 @@ type Result struct {
 	Unrepaired      []ShardDiff  `json:"unrepaired,omitempty"`
 	More            []MoreResult `json:"more,omitempty"`
 	Stderr          string       `json:"stderr,omitempty"` // died: head of the child's stderr
+	Phase2          bool         `json:"phase2,omitempty"` // died: the repair-family case had already passed its first read
 }
 
 type batchFile struct {
@@ -200,7 +201,7 @@ func setupGroup(seed int64, scratch string, c Case) (*group, error) {
 	if err != nil {
 		return nil, err
 	}
-	g := &group{key: groupKey(c), d: c.D, p: c.P, size: c.Size, dirs: dirs,
+	g := &group{key: GroupKey(c), d: c.D, p: c.P, size: c.Size, dirs: dirs,
 		id: blobID(seed, c.D, c.P, c.Size), data: BlobBytes(seed, c.D, c.P, c.Size)}
 	if g.store, err = sopfs.NewBlobStoreWithEC(sopfs.DefaultToFilePath, sopfs.NewFileIO(), cfgFor(c.D, c.P, dirs, c.Repair)); err != nil {
 		return nil, fmt.Errorf("NewBlobStoreWithEC: %v", err)
@@ -247,7 +248,8 @@ func setupGroup(seed int64, scratch string, c Case) (*group, error) {
 	return g, nil
 }
 
-func groupKey(c Case) string { return fmt.Sprintf("%d/%d/%d/%v", c.D, c.P, c.Size, c.Repair) }
+// GroupKey names the (d, p, size, repair) group of a case.
+func GroupKey(c Case) string { return fmt.Sprintf("%d/%d/%d/%v", c.D, c.P, c.Size, c.Repair) }
 
 // damaged returns the bytes a damage turns `cur` into (nil, true = remove the file).
 func damaged(cur []byte, present bool, dm Damage) (out []byte, remove bool, err error) {
@@ -291,7 +293,32 @@ func writeState(path string, b []byte, present bool) error {
 		}
 		return nil
 	}
-	return os.WriteFile(path, b, 0o644)
+	return putFile(path, b)
+}
+
+// putFile makes the file hold exactly b. It overwrites in place and only changes the length when
+// needed (fewer journalled metadata operations than truncate-and-rewrite; the scratch disk is shared).
+func putFile(path string, b []byte) error {
+	f, err := os.OpenFile(path, os.O_WRONLY|os.O_CREATE, 0o644)
+	if err != nil {
+		return err
+	}
+	defer f.Close()
+	st, err := f.Stat()
+	if err != nil {
+		return err
+	}
+	if st.Size() != int64(len(b)) {
+		if err := f.Truncate(int64(len(b))); err != nil {
+			return err
+		}
+	}
+	if len(b) > 0 {
+		if _, err := f.WriteAt(b, 0); err != nil {
+			return err
+		}
+	}
+	return nil
 }
 
 // applyDamage changes the files; returns how many files really changed.
@@ -319,7 +346,7 @@ func (g *group) applyDamage(dmg []Damage) (int, error) {
 
 func (g *group) restorePristine(shards []int) error {
 	for _, i := range shards {
-		if err := os.WriteFile(g.paths[i], g.pristine[i], 0o644); err != nil {
+		if err := putFile(g.paths[i], g.pristine[i]); err != nil {
 			return err
 		}
 	}
@@ -426,7 +453,7 @@ func (g *group) runRead(c Case) (Result, error) {
 	return res, g.restorePristine(touched)
 }
 
-func (g *group) runRepair(c Case) (Result, error) {
+func (g *group) runRepair(c Case, pos int, prog *os.File) (Result, error) {
 	res := Result{Idx: c.Idx}
 	n, err := g.applyDamage(c.Dmg)
 	if err != nil {
@@ -448,6 +475,7 @@ func (g *group) runRepair(c Case) (Result, error) {
 		return res, g.restorePristine(all)
 	}
 	res.Unrepaired = g.diffFromPristine()
+	appendLine(prog, fmt.Sprintf("PHASE2 %d first read ok, %d shard files differ from the written ones", pos, len(res.Unrepaired)))
 	// Snapshot the post-repair state; every further-damage set starts from it.
 	type st struct {
 		b       []byte
@@ -607,19 +635,19 @@ func ChildMain(args []string) int {
 			appendLine(prog, fmt.Sprintf("START %d %s", pos, d))
 			res, err = runWrite(bf.Seed, scratch, c)
 		} else {
-			if g == nil || g.key != groupKey(c) {
-				appendLine(prog, fmt.Sprintf("SETUP %d %s", pos, groupKey(c)))
+			if g == nil || g.key != GroupKey(c) {
+				appendLine(prog, fmt.Sprintf("SETUP %d %s", pos, GroupKey(c)))
 				if g != nil {
 					os.RemoveAll(filepath.Dir(g.dirs[0]))
 				}
 				if g, err = setupGroup(bf.Seed, scratch, c); err != nil {
-					return fail("set-up of group %s: %v", groupKey(c), err)
+					return fail("set-up of group %s: %v", GroupKey(c), err)
 				}
 			}
 			d, _ := json.Marshal(c)
 			appendLine(prog, fmt.Sprintf("START %d %s", pos, d))
 			if c.Fam == "repair" {
-				res, err = g.runRepair(c)
+				res, err = g.runRepair(c, pos, prog)
 			} else {
 				res, err = g.runRead(c)
 			}
@@ -681,7 +709,7 @@ func Exec(r *report.Run, role string, cases []Case, batchSize int) []Result {
 				resf := filepath.Join(logDir, fmt.Sprintf("batch-%d.results", bi))
 				pos := 0
 				for pos < len(sub) {
-					pr := proc.Run(logDir, 300, nil, role, bfile, strconv.Itoa(pos), prog, resf, filepath.Join(scratch, fmt.Sprintf("b%d", bi)))
+					pr := proc.Run(logDir, 300, []string{"GOMAXPROCS=2"}, role, bfile, strconv.Itoa(pos), prog, resf, filepath.Join(scratch, fmt.Sprintf("b%d", bi)))
 					mu.Lock()
 					children++
 					mu.Unlock()
@@ -695,7 +723,7 @@ func Exec(r *report.Run, role string, cases []Case, batchSize int) []Result {
 					}
 					crash := reCrash.FindString(stderr)
 					lastKind, lastPos := lastProgress(prog)
-					if pr.Code == exitChildHarness || crash == "" || lastKind != "START" || lastPos < pos {
+					if pr.Code == exitChildHarness || crash == "" || (lastKind != "START" && lastKind != "PHASE2") || lastPos < pos {
 						r.Broken("child of batch %d ended with code %d at %s %d: %s", bi, pr.Code, lastKind, lastPos, head(stderr, 600))
 						break
 					}
@@ -703,7 +731,7 @@ func Exec(r *report.Run, role string, cases []Case, batchSize int) []Result {
 					mu.Lock()
 					deaths++
 					mu.Unlock()
-					results[b.lo+lastPos] = Result{Idx: b.lo + lastPos, Outcome: "died", Msg: crash, Applied: -1, Stderr: head(stderr, 1500)}
+					results[b.lo+lastPos] = Result{Idx: b.lo + lastPos, Outcome: "died", Msg: crash, Applied: -1, Stderr: head(stderr, 1500), Phase2: lastKind == "PHASE2"}
 					pos = lastPos + 1
 					os.Remove(pr.Stdout)
 					os.Remove(pr.Stderr)
